@@ -32,7 +32,10 @@ def _vector_angle_degrees(v1, v2):
     float
       angle in degrees
     """
-    angle = degrees(arccos(dot(u_vect(v1), u_vect(v2))))
+    # rounding can push the cosine of (anti)parallel vectors just beyond
+    # +/-1, for which arccos is not defined
+    cosine = min(1.0, max(-1.0, dot(u_vect(v1), u_vect(v2))))
+    angle = degrees(arccos(cosine))
     return angle
 
 # this is the numba implementation
